@@ -8,9 +8,11 @@ import GunYu.Model.Rdb.Value
 import GunYu.Model.Rdb.Replay
 import GunYu.Proofs.Rdb.Crc64
 import GunYu.Proofs.Rdb.Read
+import GunYu.Proofs.Rdb.Sem
 import GunYu.Proofs.Rdb.Chunk
 import GunYu.Proofs.Rdb.StreamNode
 import GunYu.Proofs.Rdb.Frame
+import GunYu.Proofs.Rdb.FanOut
 
 namespace GunYu.Props.C03
 open GunYu GunYu.Rdb GunYu.RedisSem
@@ -142,6 +144,14 @@ theorem expand_roundtrip (x : XCfg) (k : Bytes) (o : ObjE)
     simp only [hkind] at hne hd ⊢
     exact hset_all k o.pairs hne hd
 
+/-- frame rule: the same expansion replayed into ANY keyspace that does not hold
+    the key (other keys, whatever their types) adds exactly the source value and
+    leaves everything else as it was -/
+theorem expand_roundtrip_frame (x : XCfg) (k : Bytes) (o : ObjE) (ks : Keyspace)
+    (hwf : o.wf) (hk : o.kind ≠ .other) (hne : o.nonempty) (hd : o.members.Nodup) (hfresh : get ks k = none) :
+    ∃ cmds, execCmd x (pobjOf k o) = some cmds ∧ applyCmds ks cmds = some (ks ++ [(k, o.value, 0)]) :=
+  ⟨o.cmds k, execCmd_pobjOf x k o hwf hk, cmds_frame ks k o hk hne hd hfresh⟩
+
 /-- The bytes teed while parsing are exactly the value's serialization
     (`ReadBuffer` after the key consumes `o.ser`, nothing more, nothing less, and
     stores it as the parser's buffer), so a RESTORE payload is byte for byte type +
@@ -149,9 +159,26 @@ theorem expand_roundtrip (x : XCfg) (k : Bytes) (o : ObjE)
     `hash_unsplit_raw_is_encode` / `chunked_roundtrip`.) -/
 theorem raw_is_encode (cfg : DCfg) (key : SE) (o : ObjE) (rest : Bytes)
     (hkey : key.wf) (hwf : o.wf) (hk : o.kind ≠ .other) (hh : o.rtype ≠ 4) :
-    ∃ p ls, readBuffer cfg {} o.rtype (key.enc ++ (o.ser ++ rest)) = some (p, ls, rest) ∧
-      p.buf = o.ser ∧ p.key = key.val ∧ p.dump = createValueDump o.rtype o.ser := by
-  refine ⟨pobjOf key.val o, {}, readBuffer_plain cfg key o rest hkey hwf hk hh, rfl, rfl, rfl⟩
+    readBuffer cfg {} o.rtype (key.enc ++ (o.ser ++ rest)) = some (pobjOf key.val o, {}, rest) ∧
+      (pobjOf key.val o).buf = o.ser ∧ (pobjOf key.val o).key = key.val ∧
+      (pobjOf key.val o).dump = createValueDump o.rtype o.ser :=
+  ⟨readBuffer_plain cfg key o rest hkey hwf hk hh, rfl, rfl, rfl⟩
+
+/-- `Loader.Next` on a key item (expiry / idle / freq opcodes, type byte, key,
+    value) of any string / list / set / sorted-set / hash encoding that is never
+    split: exactly ONE entry, with the key, the loader's DB, the absolute expiry,
+    idle time, freq and the parser object `pobjOf` (buffer = serialization) that
+    `expand_roundtrip`, `restore_path` and `expand_path` start from; the loader
+    is ready for the next item, the input is positioned behind the value. -/
+theorem next_key_entry (cfg : DCfg) (ls : LState) (k : KeyE) (rest : Bytes)
+    (hls : ls.total = 0 ∧ ls.read = 0) (hwf : k.wf) (hk : k.obj.kind ≠ .other) (hh : k.obj.rtype ≠ 4) :
+    ∃ e ls', next cfg ls (k.enc ++ rest) = some (some e, ls', rest) ∧
+      e.key = k.key.val ∧ e.db = (ls.db : Int) ∧ e.expireAt = k.exp.at ∧
+      e.idle = (match k.idle with | none => 0 | some (_, n) => n) ∧
+      e.freq = (match k.freq with | none => 0 | some n => n) ∧
+      e.type = k.obj.rtype ∧ e.obj = pobjOf k.key.val k.obj ∧
+      ls'.db = ls.db ∧ ls'.total = 0 ∧ ls'.read = 0 :=
+  next_plain cfg ls k rest hls hwf hk hh
 
 /-! ## Values split into several chunks
 
@@ -235,14 +262,23 @@ theorem hash_unsplit_raw_is_encode (cfg : DCfg) (key : SE) (f : LenForm) (items 
     one value — to the same worker, whatever was distributed in between; a
     worker consumes its pipe in FIFO order (Go channel semantics, trusted), so
     the chunks of a key are applied in snapshot order -/
-theorem fanOut_same_key (n : Nat) (e1 e2 : Entry) (i1 i2 : Nat) (h : e1.key = e2.key) (hk : e1.key ≠ []) :
+theorem fanOut_same_key (n : Nat) (e1 e2 : Entry) (i1 i2 : Nat) (h : e1.key = e2.key)
+    (h1 : otypeOf e1.obj.rtype ≠ some .function) (h2 : otypeOf e2.obj.rtype ≠ some .function) :
     workerOf n e1 i1 = workerOf n e2 i2 := by
-  have h1 : e1.key.length > 0 := by
-    cases hkk : e1.key with
-    | nil => exact absurd hkk hk
-    | cons a t => simp
-  have h2 : e2.key.length > 0 := by rw [← h]; exact h1
-  simp [workerOf, h2, h]
+  simp [workerOf, h1, h2, h]
+
+/-- order is kept per worker: after the fan-out, the request log of EVERY worker
+    is its log before, followed by the request blocks of exactly the entries
+    routed to it (`fanOutTrace`: worker `workerOf …` and requests of each entry,
+    in snapshot order) — entries of other workers never interleave into a
+    worker's sequence, so the chunks of one key (same worker by
+    `fanOut_same_key`) are applied in snapshot order. (That a worker consumes its
+    pipe in FIFO order is Go channel semantics, trusted.) -/
+theorem fanOut_keeps_order (cfg : RCfg) (es : List Entry) (idx : Nat) (ws : List Worker) (ex : Exists)
+    (hn : 0 < ws.length) (j : Nat) (hj : j < ws.length) :
+    ((fanOut cfg es idx ws ex).1.getD j {}).log =
+      (ws.getD j {}).log ++ ((fanOutTrace cfg es idx ws ex).filter (fun p => p.1 == j)).flatMap (·.2) :=
+  fanOut_logs cfg es idx ws ex hn j hj
 
 /-! ## Streams (partial: the entries)
 
@@ -294,15 +330,16 @@ theorem footer_roundtrip (f : FileE) (hnb : f.footer ≠ .bad) :
     that, and whose TTL realises the absolute expiry. -/
 theorem restore_path (cfg : RCfg) (db : Int) (ex : Exists) (e : Entry) (k : Bytes) (o : ObjE)
     (hobj : e.obj = pobjOf k o) (hkey : e.key = k) (hk : o.kind ≠ .other)
-    (hon : cfg.enableRestore = true) (hsz : 1 + o.ser.length + 2 + 8 ≤ cfg.maxBulk) :
+    (hon : cfg.enableRestore = true) (hsz : 1 + o.ser.length + 2 + 8 ≤ cfg.maxBulk)
+    (hload : typeLoadable cfg.x.tgtMajor o.rtype = true) :
     let payload := [o.rtype] ++ o.ser ++ [6, 0] ++ le64 (crc64Spec ([o.rtype] ++ o.ser ++ [6, 0])).toNat
     let params := [k, natToDec (ttlOf cfg.now e.expireAt), payload] ++
       (if cfg.x.tgtMajor ≥ 5 then
         (if e.idle ≠ 0 then [b!"IDLETIME", natToDec e.idle] else []) ++
         (if e.freq ≠ 0 then [b!"FREQ", natToDec e.freq] else []) else [])
-    replayEntry cfg db ex e =
-      if ex.has db k then ([cmdB b!"restore" params, cmdB b!"restore" (params ++ [b!"REPLACE"])], ex, true)
-      else ([cmdB b!"restore" params], ex.add db k, true) := by
+    (replayEntry cfg db ex e).1 =
+        (if ex.has db k then [cmdB b!"restore" params, cmdB b!"restore" (params ++ [b!"REPLACE"])]
+         else [cmdB b!"restore" params]) ∧ (replayEntry cfg db ex e).2.2 = true := by
   have hot := otypeOf_rtype o hk
   have hnf : otOf o ≠ .function ∧ otOf o ≠ .aux ∧ otOf o ≠ .module := by
     unfold otOf; cases hkk : o.kind <;> simp_all
@@ -317,7 +354,8 @@ theorem restore_path (cfg : RCfg) (db : Int) (ex : Exists) (e : Entry) (k : Byte
   simp only [replayEntry, hobj, hkey]
   have hrt : (pobjOf k o).rtype = o.rtype := rfl
   simp only [hrt, hot, hnf.1, hnf.2.1, or_self, if_false, hon, hsplit, hsize, decide_false, Bool.or_self,
-    Bool.not_false, Bool.and_self, Bool.not_true, Bool.false_eq_true, hdump]
+    Bool.not_false, Bool.and_self, Bool.not_true, Bool.false_eq_true, hdump, hload, if_true]
+  exact ⟨trivial, trivial⟩
 
 /-- expansion path onto a key that does not exist on the target: the probe,
     the expansion (which rebuilds the value by `expand_roundtrip`), and — iff the
@@ -335,9 +373,27 @@ theorem expand_path (cfg : RCfg) (db : Int) (ex : Exists) (e : Entry) (k : Bytes
   have hfb : (pobjOf k o).firstBin = true := by simp [pobjOf, PObj.firstBin]
   have hrt : (pobjOf k o).rtype = o.rtype := rfl
   have hexec := execCmd_pobjOf cfg.x k o hwf hk
-  simp only [replayEntry, hobj, hkey, hrt, hot, hnf.1, hnf.2.1, hnf.2.2, or_self, if_false, hoff, Bool.false_and,
-    Bool.not_false, if_true, hfb, hfresh, Bool.false_eq_true, hexec]
+  simp only [replayEntry, expandEntry, hobj, hkey, hrt, hot, hnf.1, hnf.2.1, hnf.2.2, or_self, if_false, hoff,
+    Bool.false_and, Bool.not_false, if_true, hfb, hfresh, Bool.false_eq_true, hexec]
   constructor <;> simp
+
+/-- expansion path end to end for one entry (fresh key): ALL requests `Replay`
+    issues — probe, expansion, PEXPIRE — replayed through the oracle leave the key
+    with the source value AND the time to live that realises its absolute expiry
+    (`ttlOf`: remaining ms, 1 = expires at once, 0 = none) -/
+theorem expand_path_final (cfg : RCfg) (db : Int) (e : Entry) (k : Bytes) (o : ObjE)
+    (hobj : e.obj = pobjOf k o) (hkey : e.key = k) (hwf : o.wf) (hk : o.kind ≠ .other)
+    (hne : o.nonempty) (hd : o.members.Nodup) (hoff : cfg.enableRestore = false) :
+    applyCmds [] (replayEntry cfg db [] e).1 = some [(k, o.value, ttlOf cfg.now e.expireAt)] := by
+  obtain ⟨hreq, _⟩ := expand_path cfg db [] e k o hobj hkey hwf hk hoff rfl
+  rw [hreq, applyCmds_append, applyCmds_append]
+  simp only [applyCmds, apply_exists, Option.bind_some]
+  rw [cmds_frame [] k o hk hne hd rfl]
+  simp only [List.nil_append, Option.bind_some]
+  by_cases h0 : e.expireAt = 0
+  · simp [h0, applyCmds, ttlOf]
+  · simp only [h0, ne_eq, not_false_eq_true, if_true, applyCmds, apply_pexpire, doPexpire,
+      decToNat_natToDec, get_single, put_single]
 
 /-! ## TTL and database -/
 
@@ -417,6 +473,22 @@ example : ∀ e ∈ exNode.entries, e.idWf exNode.masterMs exNode.masterSeq := b
     exact ⟨_, _, rfl, rfl, by decide, by decide, by decide, by decide⟩
 example : exNode.live = [([49,45,49], [[97],[49],[98],[50]]), ([49,45,50], [[99],[51]]), ([49,45,52], [[97],[52],[98],[53]])] := by
   decide +kernel
+-- a hash table of three pairs with threshold 1 byte is read as THREE chunks
+def exHashKey : KeyE :=
+  { exp := .ms 5000, key := SE.plain [104],
+    obj := .hashTable .b6 [(SE.plain [97], SE.plain [49]), (SE.plain [98], SE.plain [50]), (SE.plain [99], SE.plain [51])] }
+example : exHashKey.wf := by decide
+example : (nextValue { thr := 1 } 4 {} (exHashKey.enc ++ [0xFF])).map (fun r => (r.1.length, r.1.map (·.expireAt), r.2.2)) =
+    some (3, [5000, 5000, 5000], [0xFF]) := by decide +kernel
+-- restore_path / expand_path / expand_path_final on the list of `exList`, key "l", expiry 6000 at clock 5000
+def exEntry : Entry := { db := 0, key := [108], type := 10, expireAt := 6000, obj := pobjOf [108] exList }
+example : (replayEntry { enableRestore := true, now := 5000 } 0 [] exEntry).2.2 = true :=
+  (restore_path { enableRestore := true, now := 5000 } 0 [] exEntry [108] exList rfl rfl (by decide) rfl
+    (by decide) (by decide)).2
+example : applyCmds [] (replayEntry { enableRestore := false, now := 5000 } 0 [] exEntry).1 =
+    some [([108], exList.value, 1000)] :=
+  expand_path_final { enableRestore := false, now := 5000 } 0 exEntry [108] exList rfl rfl (by decide) (by decide)
+    (by decide) (by decide) rfl
 -- TTL: expiry 1000 ms ahead / already past
 example : ttlOf 5000 6000 = 1000 ∧ ttlOf 5000 4000 = 1 ∧ ttlOf 5000 0 = 0 := by decide
 
